@@ -78,18 +78,19 @@ type writerRef struct {
 }
 
 type runner struct {
-	cs          caseSpec
-	env         *wenv
-	b           *built
-	actors      []*actor
-	m           model
-	writers     map[string]writerRef // resource name + "|" + index + "|" + tag -> committed writer attempt
-	kinds       map[string]string    // resource name -> kind
-	sharedStore map[string]string    // replay of committed writes to shared variables, all archetypes, commit order
-	trail       []string
-	file        bool // file-recorder mode: events come from the PGO_TRACE_DIR log
-	faultMaxOps int  // > 0: failing attempts are only enumerated in systems with at most that many operations
-	stats       *runStats
+	cs                   caseSpec
+	env                  *wenv
+	b                    *built
+	actors               []*actor
+	m                    model
+	writers              map[string]writerRef // resource name + "|" + index + "|" + tag -> committed writer attempt
+	kinds                map[string]string    // resource name -> kind
+	recvCount, sentCount map[string]int       // per link: messages consumed / sent by committed sections so far
+	sharedStore          map[string]string    // replay of committed writes to shared variables, all archetypes, commit order
+	trail                []string
+	file                 bool // file-recorder mode: events come from the PGO_TRACE_DIR log
+	faultMaxOps          int  // > 0: failing attempts are only enumerated in systems with at most that many operations
+	stats                *runStats
 }
 
 type runStats struct {
@@ -156,6 +157,7 @@ func newRunner(cs caseSpec, env *wenv, withFaulty bool, file bool, st *runStats)
 	if file {
 		cleanTraceFiles(env) // exactly one log file per self must exist while a file-mode execution runs
 	}
+	r.recvCount, r.sentCount = map[string]int{}, map[string]int{}
 	r.sharedStore = map[string]string{}
 	for _, rs := range cs.Sys.Res {
 		switch rs.Kind {
@@ -346,6 +348,7 @@ func (r *runner) stepActor(a *actor) *failure {
 	obs := a.script.Obs[markObs:]
 	sec := a.secs[a.sec]
 	bodyFailed := false
+	recvLocal, sentLocal := map[string]int{}, map[string]int{} // messages received / sent on each link by this attempt
 	envAbort := false
 	touchesTCP := false
 	for _, o := range sec.Ops {
@@ -381,6 +384,10 @@ func (r *runner) stepActor(a *actor) *failure {
 				}
 				want = mr.queue[0]
 				mr.queue = mr.queue[1:]
+				// links are FIFO: the k-th value received was sent by whoever committed the k-th send (a relay can
+				// put the same tag on a link twice, so the tag alone does not identify the sender)
+				e.keys = []string{fmt.Sprintf("%s#%d", op.R, r.recvCount[op.R]+recvLocal[op.R])}
+				recvLocal[op.R]++
 			case mr.idx != nil && idxKey(op) == "":
 				// the whole function-valued variable
 				want = mr.idx["1"] + "," + mr.idx["2"]
@@ -401,6 +408,8 @@ func (r *runner) stepActor(a *actor) *failure {
 			switch {
 			case isLink(kind):
 				pend[op.R] = append(pend[op.R], e.val)
+				e.keys = []string{fmt.Sprintf("%s#%d", op.R, r.sentCount[op.R]+sentLocal[op.R])}
+				sentLocal[op.R]++
 			case mr.idx != nil && idxKey(op) == "":
 				old := mr.idx["1"] + "," + mr.idx["2"]
 				e.hint = &old
@@ -638,6 +647,12 @@ func (r *runner) stepActor(a *actor) *failure {
 	r.trail = append(r.trail, fmt.Sprintf("%s.s%d", a.name, a.sec))
 	for n, msgs := range pend {
 		t[n].queue = append(t[n].queue, msgs...)
+	}
+	for n, k := range recvLocal {
+		r.recvCount[n] += k
+	}
+	for n, k := range sentLocal {
+		r.sentCount[n] += k
 	}
 	r.m = t
 	for _, e := range exp {
